@@ -23,7 +23,7 @@ def run(tier):
     rw.run_lens("ScanWords", workers=4)
     out.add_replay(rw, "scanwords")
     events = rp.events + rl.events
-    jr, n_ok, n_bad, n_undef = judge_events(out, events, "C10", lambda e: "%s|%s" % (e["what"], e["sig"]))
+    jr, n_ok, n_bad, n_undef = judge_events(out, events, "C10", lambda e: "%s|%s" % (e["what"], e["sig"]), timeout=300 if tier == "quick" else 2400)
     cov = check.replay_coverage(
         rp, "every problem of the cfgs (durations 1..12, 1-2 state pairs, sizes 2-3, batch / time dependence) x "
             "{sequential, naive, mixed with every num_segments, MarkovProduct eager and lazy} against the left fold; "
